@@ -175,7 +175,7 @@ def model_runs(tier):
 from .basic import C12_CLAUSES as _BASIC_CLAUSES  # noqa: E402
 
 CHECK = PropertyCheck(
-    attached=(("rv.drivers.basic", _BASIC_CLAUSES),),
+    attached=(("rv.drivers.basic", _BASIC_CLAUSES, "medium"),),
     whole_run_clauses=('results_and_transformed_results_do_not_correspond', 'tracked_result_not_the_feasible_optimum',),
     prop="C12", trace_module="Trace_C12", drive=drive, model_runs=model_runs, extra_scenarios=extra_scenarios,
     rule=("TLC enumerates every event history of length 2 with 1-2 items per event and of length 4 with single items (thorough 3 / 6) "
